@@ -292,6 +292,11 @@ class Filer(hioing.Mixin):
         if os.path.isabs(name):
             raise hioing.FilerError(f"Not relative {name=} path.")
 
+        # ensure relative path parts stay below head and tail, '..' may not escape
+        rel = os.path.normpath(os.path.join(base, name))
+        if rel == os.pardir or rel.startswith(os.pardir + os.sep):
+            raise hioing.FilerError(f"Escaping {base=} or {name=} path.")
+
         if temp:
             headDirPath = tempfile.mkdtemp(prefix=self.TempPrefix,
                                            suffix=self.TempSuffix,
